@@ -90,4 +90,14 @@ PLAN = {
         "trusted_base": BASE_TRUST,
         "assumptions": BASE_ASSUME,
     },
+    "C06": {
+        "streams": {
+            "quick": [fs(48, 10, "C06", mode="cut", rs="20,1,3")],
+            "thorough": [fs(400, 12, "C06", mode="cut", rs="20,1,2,3,7", timeout=6000), fs(32, 8, "C06", mode="cut", rs="20,3", timeout=6000, extra=["-allcuts"])],
+            "search": [fs(400, 12, "C06", mode="cut", rs="20,1,2,3,7", timeout=2000)],
+        },
+        "generated": ["Stfs/Gen/PosArith.lean"],
+        "trusted_base": BASE_TRUST,
+        "assumptions": BASE_ASSUME + ["the torn-tape model (Model/Cut.lean) is the tar-reader contract R1-R4; it is validated against the real archive/tar on real bytes (every byte offset of small tapes in the thorough tier), not proved", "termination of the real resynchronisation loop is observed under a watchdog on every cut, not proved (the model is a total function)"],
+    },
 }
